@@ -20,7 +20,7 @@ type c23Viol struct {
 	Clause string `json:"clause"`
 	Step   int    `json:"step"`
 	Detail string `json:"detail"`
-	Last   string `json:"last"` // last pin-changing event before the violation: none | L (reload) | PF (failed ping)
+	Last   string `json:"last"` // last pin-changing event before the violation: none | L (reload between commands) | LM (reload during a command) | PF (failed ping)
 	InTx   bool   `json:"in_tx"`
 }
 
@@ -53,11 +53,16 @@ func c23Judge(tr *txTrace) []c23Viol {
 		if st.Step.Op == "reload" {
 			reloads++
 		}
+		for _, e := range st.Events {
+			if e.Fault == "reload" {
+				reloads++ // reload committed while this backend call was in flight
+			}
+		}
 	}
 	gen := tr.GenAtEnd - reloads
 	pinned := map[string]int64{}
 	pending := map[int64]bool{} // old pins that the next command has to release
-	expectReject := false
+	expectReject, nextReject := false, false
 	inTx := false
 	ended := false
 	for i, st := range tr.Steps {
@@ -84,10 +89,13 @@ func c23Judge(tr *txTrace) []c23Viol {
 			prevPinned[c] = true
 		}
 		rejecting := expectReject
-		pingFailed := false
+		pingFailed, reloadedMid := false, false
 		for _, e := range st.Events {
 			if e.Fault == "pingfail" {
 				pingFailed = true
+			}
+			if e.Fault == "reload" {
+				reloadedMid = true
 			}
 		}
 		if pingFailed {
@@ -101,7 +109,9 @@ func c23Judge(tr *txTrace) []c23Viol {
 				add("tx_reload_not_rejected", i, fmt.Sprintf("%s after a reload inside a transaction answered %s %q, session ended=%v", op, st.Reply.Kind, st.Reply.Msg, st.Ended))
 			}
 		}
-		releaseOK := class == "Q" || rejecting || st.Ended
+		// a reload committed while the command was in flight may already be honoured by the
+		// command itself (recycleBackendConn -> clearKsConns)
+		releaseOK := class == "Q" || rejecting || st.Ended || reloadedMid
 		pinged := map[int64]bool{}
 		for _, e := range st.Events {
 			switch e.Op {
@@ -156,6 +166,19 @@ func c23Judge(tr *txTrace) []c23Viol {
 			}
 			pending = map[int64]bool{}
 		}
+		if reloadedMid && !st.Ended {
+			// from here on it is a reload like one between two commands
+			gen++
+			last, lastInTx = "LM", inTx
+			if inTx {
+				nextReject = true
+			} else {
+				for s, c := range pinned {
+					pending[c] = true
+					delete(pinned, s)
+				}
+			}
+		}
 		if st.Ended {
 			ended = true
 			for _, cs := range st.Snap {
@@ -168,13 +191,17 @@ func c23Judge(tr *txTrace) []c23Viol {
 			for _, c := range pinned {
 				isPin[c] = true
 			}
+			for c := range pending {
+				isPin[c] = true
+			}
 			for _, cs := range st.Snap {
 				if cs.Taken && !isPin[cs.ID] {
 					add("leak", i, fmt.Sprintf("c%d %s/%s checked out but not the pin of its slice", cs.ID, cs.Slice, cs.Role))
 				}
 			}
 		}
-		expectReject = false
+		expectReject = nextReject
+		nextReject = false
 		inTx = st.InTx
 	}
 	return out
@@ -199,8 +226,14 @@ func c23Shrink(tr *txTrace, v c23Viol) (*txTrace, c23Viol) {
 	for changed := true; changed; {
 		changed = false
 		for i := 0; i < len(cur.Case.Steps)-1; i++ {
+			if cur.Case.Fault != nil && cur.Case.Fault.Cmd == i {
+				continue
+			}
 			d := cur.Case.clone()
 			d.Steps = append(append([]txStep(nil), cur.Case.Steps[:i]...), cur.Case.Steps[i+1:]...)
+			if d.Fault != nil && d.Fault.Cmd > i {
+				d.Fault.Cmd--
+			}
 			found := false
 			for t := 0; t < 3 && !found; t++ {
 				t2 := w.Run(d)
@@ -223,8 +256,8 @@ func c23Shrink(tr *txTrace, v c23Viol) (*txTrace, c23Viol) {
 	return cur, curV
 }
 
-var c23Alpha = []string{"ru", "rs1", "ws2", "wu", "begin", "commit", "rollback", "ac0", "ac1", "ping", "pingfail", "reload", "fl"}
-var c23Core = []string{"ru", "rs1", "ws2", "begin", "commit", "ping", "pingfail", "reload"}
+var c23Alpha = []string{"ru", "rs1", "ws2", "wu", "begin", "commit", "rollback", "ac0", "ac1", "ping", "pingfail", "reload", "fl", "sr", "sm"}
+var c23Core = []string{"ru", "rs1", "ws2", "begin", "commit", "ping", "pingfail", "reload", "sr"}
 
 func c23Random(r *kit.Rand, n, maxLen int) []*txCase {
 	var out []*txCase
@@ -235,8 +268,69 @@ func c23Random(r *kit.Rand, n, maxLen int) []*txCase {
 			ops = append(ops, r.Pick(c23Alpha))
 		}
 		end := r.Pick([]string{"quit", "quit", "disc"})
-		out = append(out, &txCase{Mode: "k", Users: []string{r.Pick([]string{"rw", "rw", "rws", "ro"})}, Steps: txSteps(ops, end)})
+		c := &txCase{Mode: "k", Users: []string{r.Pick([]string{"rw", "rw", "rws", "ro"})}, Steps: txSteps(ops, end)}
+		// one case in three: the namespace is reloaded WHILE a backend call of a command is
+		// in flight (the call returns after the commit)
+		if r.Chance(1, 3) {
+			c.Fault = c23ReloadDuring(r, c)
+		}
+		out = append(out, c)
 	}
+	return out
+}
+
+// c23ReloadDuring picks a command whose transaction state does not change and addresses
+// its first ping / execute / field-list call on one slice.
+func c23ReloadDuring(r *kit.Rand, c *txCase) *txFault {
+	var cand []int
+	for i, st := range c.Steps {
+		switch st.Op {
+		case "ping", "ru", "rs1", "ws2", "wu", "fl":
+			cand = append(cand, i)
+		}
+	}
+	if len(cand) == 0 {
+		return nil
+	}
+	at := cand[r.Intn(len(cand))]
+	f := &txFault{Kind: "reload", Cmd: at, N: 0}
+	switch c.Steps[at].Op {
+	case "ping":
+		f.Op, f.Slice = "ping", r.Pick([]string{"slice-0", "slice-1"})
+	case "fl":
+		f.Op, f.Slice = "fieldlist", "slice-0"
+	case "rs1":
+		f.Op, f.Slice = "exec", "slice-1"
+	case "ws2":
+		f.Op, f.Slice = "exec", r.Pick([]string{"slice-0", "slice-1"})
+	default:
+		f.Op, f.Slice = "exec", "slice-0"
+	}
+	return f
+}
+
+// c23Curated are fixed cases (both tiers): a reload during a command outside and inside a
+// transaction, followed by further commands, and streamed answers.
+func c23Curated() []*txCase {
+	var out []*txCase
+	mk := func(ops []string, cmd int, slice, op string) {
+		c := &txCase{Mode: "k", Users: []string{"rw"}, Steps: txSteps(ops, "quit")}
+		if cmd >= 0 {
+			c.Fault = &txFault{Kind: "reload", Cmd: cmd, Slice: slice, Op: op, N: 0}
+		}
+		out = append(out, c)
+	}
+	mk([]string{"ru", "ping", "ru", "ru"}, 1, "slice-0", "ping")
+	mk([]string{"ws2", "ping", "ws2", "ping"}, 1, "slice-1", "ping")
+	mk([]string{"ru", "ru", "ru", "rs1"}, 1, "slice-0", "exec")
+	mk([]string{"ru", "begin", "ping", "ru"}, 2, "slice-0", "ping")
+	mk([]string{"ru", "begin", "ru", "ru"}, 2, "slice-0", "exec")
+	mk([]string{"begin", "ws2", "ws2", "commit"}, 2, "slice-1", "exec")
+	mk([]string{"ru", "ac0", "ping", "commit"}, 2, "slice-0", "ping")
+	mk([]string{"ru", "fl", "ru"}, 1, "slice-0", "fieldlist")
+	mk([]string{"sr", "ru", "sm", "ru", "ping"}, -1, "", "")
+	mk([]string{"ru", "sr", "begin", "sr", "sm", "commit", "sr"}, -1, "", "")
+	mk([]string{"ac0", "sr", "sm", "ac1", "sm"}, -1, "", "")
 	return out
 }
 
@@ -259,7 +353,7 @@ func c23Exhaustive(n int) []*txCase {
 }
 
 func TestVerif_C23(t *testing.T) {
-	rec := kit.Start("C23", "exploration", "keep-session command sequences (length <= 10) over statements on slice-0 / slice-1 / both slices, BEGIN, COMMIT, ROLLBACK, SET autocommit 0/1, COM_FIELD_LIST, COM_PING succeeding or failing on a backend, namespace reload on the real Manager, ending in COM_QUIT or an abrupt disconnect; thorough adds every sequence up to length 5 over an 8-command core; a case is non-trivial when a connection was pinned, keyed by the ordered command classes with reload / failed ping / transaction state marked")
+	rec := kit.Start("C23", "exploration", "keep-session command sequences (length <= 10) over statements on slice-0 / slice-1 / both slices, BEGIN, COMMIT, ROLLBACK, SET autocommit 0/1, COM_FIELD_LIST, COM_PING succeeding or failing on a backend, statements answered with streamed / multi-result sets, namespace reloads on the real Manager between two commands and (one random case in three) WHILE a backend call of a command is in flight, ending in COM_QUIT or an abrupt disconnect; thorough adds every sequence up to length 5 over a 9-command core; a case is non-trivial when a connection was pinned, keyed by the ordered command classes with reload / failed ping / transaction state marked")
 	defer rec.Finish(t)
 	rec.Assume("a failed COM_PING (client receives an error) is accepted as a point where the pins may be dropped; everywhere else a pin may only change at a namespace reload or at disconnect")
 	env := txStartEnv(t)
@@ -305,13 +399,21 @@ func TestVerif_C23(t *testing.T) {
 				reloadRuns++
 				mu.Unlock()
 			}
-			key = append(key, k)
 			for _, e := range st.Events {
 				rec.Count("events."+e.Op, 1)
 				if e.Op == "get" {
 					pins++
 				}
+				if e.Fault == "reload" {
+					k += "+reload"
+					if inTx {
+						rec.Count("reloads_during_command.in_tx", 1)
+					} else {
+						rec.Count("reloads_during_command.no_tx", 1)
+					}
+				}
 			}
+			key = append(key, k)
 			if st.Step.Op != "reload" {
 				inTx = st.InTx
 			}
@@ -363,6 +465,7 @@ func TestVerif_C23(t *testing.T) {
 		}
 		cases = append(cases, c23Random(kit.SubRand(seed, "C23/random"), 1000, 10)...)
 	}
+	cases = append(cases, c23Curated()...)
 	rec.Set("sequences", len(cases))
 	env.txRunAll(cases, judge)
 	rec.Set("runs_with_pinned_connection", pinnedRuns)
